@@ -27,6 +27,9 @@ pub enum Op {
     Fail(usize, usize, Next),
     /// sequential client to listener l
     Connect(usize),
+    /// readiness error that the worker only notices when the next connection wakes it, with two connections
+    /// arriving back to back (the failure is met in the serving loop with a connection already queued)
+    FailQuietThenConnect(usize, usize),
 }
 
 #[derive(Clone, Copy, Debug, PartialEq, Eq)]
@@ -58,6 +61,7 @@ impl Scn {
                 0 | 1 => Op::Pend(l, w),
                 2 | 3 => Op::Ready(l, w),
                 4 => Op::Fail(l, w, *r.pick(&[Next::Ready, Next::Ready, Next::Pending, Next::FailAgain])),
+                5 => Op::FailQuietThenConnect(l, w),
                 _ => Op::Connect(l),
             });
         }
@@ -84,6 +88,7 @@ pub struct Seen {
     pub connections: u64,
     pub multi_service_workers: u64,
     pub errors_while_other_pending: u64,
+    pub quiet_failures: u64,
 }
 
 pub enum Outcome {
@@ -161,6 +166,26 @@ pub fn run_scenario(scn: &Scn, seen: &mut Seen) -> Outcome {
                         });
                     }
                     run.ctls[*l].set_script(i, &[ReadyStep::Err]);
+                }
+            }
+            Op::FailQuietThenConnect(l, w) => {
+                if let Some(i) = current_instance(&log, *l, *w) {
+                    run.ctls[*l].inner.lock().unwrap().initial_scripts.push_back(vec![]);
+                    run.ctls[*l].set_script_quiet(i, &[ReadyStep::Err]);
+                    seen.quiet_failures += 1;
+                }
+                // enough connections that every worker gets at least two, back to back
+                for _ in 0..2 * scn.workers {
+                    match Client::connect(&run.addrs[*l], *l, b'F') {
+                        Ok(c) => {
+                            seen.connections += 1;
+                            clients.push(c)
+                        }
+                        Err(e) => {
+                            inconclusive = Some(format!("connect: {e}"));
+                            break;
+                        }
+                    }
                 }
             }
             Op::Connect(l) => match Client::connect(&run.addrs[*l], *l, b'F') {
